@@ -751,6 +751,7 @@ func (it *Interp) choose(n int, what string) int {
 	if d, ok := it.replayDecision(3); ok {
 		return int(d.Val)
 	}
+	it.noteFork("choose " + what)
 	for i := n - 1; i >= 1; i-- {
 		it.fork(Decision{Kind: 3, Val: uint64(i)})
 	}
@@ -773,6 +774,9 @@ func (it *Interp) assertHolds(c *Term, label string) {
 		panic(pathViolation{v})
 	}
 	it.nAssertsSym++
+	if os.Getenv("SYMGO_ASSERTDUMP") != "" {
+		fmt.Fprintf(os.Stderr, "ASSERT %s: %s\n", label, c)
+	}
 	nc := it.ts.Not(c)
 	verdict, _ := it.solver.Check(it.pc, nc, nil)
 	switch verdict {
